@@ -241,6 +241,28 @@ def run_shard(ctx: Ctx, rec: Recorder) -> None:
             rec.mon("distinct_for_different")
             if a[0] == "pool" and b[0] == "pool" and a[1] is b[1]:
                 rec.fail({"kw": "vf_unknown_keyword", "scheme": scheme, "via": "pool_kwargs"}, "unknown-keyword-ignored", {"kw": "vf_unknown_keyword"}, "an unknown keyword is silently dropped from the pool identity")
+    # (b') the lesser used entry points: a request context given to connection_from_context / a key given to
+    # connection_from_pool_key may be used again by the caller (equal parameters -> same pool, argument untouched)
+    if ctx.shard == 0:
+        for scheme in ("http", "https"):
+            for extra in ({}, {"timeout": 3.0}, {"retries": 2, "maxsize": 3}):
+                pm = urllib3.PoolManager(num_pools=10)
+                rc = dict({"scheme": scheme, "host": "ctx.test", "port": 80 if scheme == "http" else 443}, **extra)
+                rc = dict(pm.connection_pool_kw, **rc)
+                before = dict(rc)
+                case = {"kw": "request_context", "scheme": scheme, "via": "connection_from_context", "extra": sorted(extra)}
+                rec.case(["from-context", scheme, sorted(extra)])
+                rec.mon("from_context_reuse")
+                try:
+                    p1 = pm.connection_from_context(rc)
+                    if rc != before:
+                        rec.fail(case, "caller-value-mutated", {"kw": "request_context", "missing": sorted(set(before) - set(rc)), "added": sorted(set(rc) - set(before))}, f"connection_from_context changed the caller's request context: now {sorted(rc)}")
+                        continue
+                    p2 = pm.connection_from_context(rc)
+                    if p2 is not p1:
+                        rec.fail(case, "equal-settings-different-pool", {"kw": "request_context"}, "the same request context gave two pools")
+                except Exception as e:  # noqa: BLE001
+                    rec.fail(case, "equal-settings-different-pool", {"kw": "request_context", "exc": type(e).__name__, "msg": str(e)[:60]}, f"using a request context twice raised {type(e).__name__}: {e!s:.80}")
     # (c) end to end: a differing keyword must dial a new socket; an equal one must reuse
     end_to_end(ctx, rec)
     if ctx.shard == 0:
